@@ -7,16 +7,18 @@ import GoomVerif.Model.C01Dispatch
   `D b` the test drops builder b (and everything it holds) · `G` collections · `C form args res` call.
 Answer: one observation per step joined by ` | `.
 
-`c01.patch <step> ; …` — one patch-layer history over three functions per line:
+`c01.patch <step> ; …` — one patch-layer history over four functions per line (f3 begins with the NOP sentinel):
   `rep f r` · `app g` · `unp g` · `res g` · `unf f` · `all` · `gc` · `call f`;
-answer per step: `<text f0>/<registration f0>,<…f1>,<…f2>` (or the behaviour for `call`).
+answer per step: `<text f0>/<registration f0>,<…f1>,<…f2>,<…f3>` (or the behaviour for `call`).
 -/
 namespace Drv.C01
 open C01M
 
+/-- functions 0–2 are ordinary Go functions; function 3 starts with a NOP byte (the assembly target of the probe) -/
 def env : Env :=
-  { nf := 3, entry := fun f => BitVec.ofNat 64 (0x401000 + 64 * f),
-    pristine := fun _ => [0x49#8, 0x3b#8, 0x66#8, 0x10#8, 0x76#8, 0x30#8, 0x55#8, 0x48#8, 0x89#8, 0xe5#8, 0x48#8, 0x83#8, 0xec#8],
+  { nf := 4, entry := fun f => BitVec.ofNat 64 (0x401000 + 64 * f),
+    pristine := fun f => if f = 3 then [0x90#8, 0x48#8, 0xc7#8, 0xc0#8, 0x07#8, 0x00#8, 0x00#8, 0x00#8, 0x48#8, 0x89#8, 0x44#8, 0x24#8, 0x08#8]
+      else [0x49#8, 0x3b#8, 0x66#8, 0x10#8, 0x76#8, 0x30#8, 0x55#8, 0x48#8, 0x89#8, 0xe5#8, 0x48#8, 0x83#8, 0xec#8],
     funcSize := fun _ => 64 }
 
 def cbCode : Addr := 0x4a0000#64          -- all callbacks share one code pointer; they differ by closure object
